@@ -97,13 +97,35 @@ type ContractFile struct {
 var labelRe = regexp.MustCompile(`^([A-Za-z_][A-Za-z0-9_\-]*):\s*(.*)$`)
 var loopRe = regexp.MustCompile(`^loop=(\d+)\s*(.*)$`)
 
+func splitTop(s string) []string {
+	var out []string
+	depth, start := 0, 0
+	for i, c := range s {
+		switch c {
+		case '(', '[':
+			depth++
+		case ')', ']':
+			depth--
+		case ',':
+			if depth == 0 {
+				out = append(out, s[start:i])
+				start = i + 1
+			}
+		}
+	}
+	if strings.TrimSpace(s[start:]) != "" {
+		out = append(out, s[start:])
+	}
+	return out
+}
+
 func parseSpecParams(s string) ([]specParam, error) {
 	var out []specParam
 	s = strings.TrimSpace(s)
 	if s == "" {
 		return nil, nil
 	}
-	for _, part := range strings.Split(s, ",") {
+	for _, part := range splitTop(s) {
 		part = strings.TrimSpace(part)
 		i := strings.IndexAny(part, " \t")
 		if i < 0 {
@@ -112,6 +134,45 @@ func parseSpecParams(s string) ([]specParam, error) {
 		out = append(out, specParam{part[:i], strings.TrimSpace(part[i+1:])})
 	}
 	return out, nil
+}
+
+// parseSpecDecl parses `[rec] name(params) ret [= body]`.
+func parseSpecDecl(rest string) (rec bool, name, params, ret, body string, ok bool) {
+	rest = strings.TrimSpace(rest)
+	if strings.HasPrefix(rest, "rec ") {
+		rec = true
+		rest = strings.TrimSpace(rest[4:])
+	}
+	i := strings.Index(rest, "(")
+	if i <= 0 {
+		return
+	}
+	name = rest[:i]
+	depth := 0
+	j := i
+	for ; j < len(rest); j++ {
+		if rest[j] == '(' {
+			depth++
+		} else if rest[j] == ')' {
+			depth--
+			if depth == 0 {
+				break
+			}
+		}
+	}
+	if j >= len(rest) {
+		return
+	}
+	params = rest[i+1 : j]
+	tail := rest[j+1:]
+	// the return type may itself contain no '=' ; body follows the first " = "
+	if k := strings.Index(tail, " = "); k >= 0 {
+		ret, body = strings.TrimSpace(tail[:k]), strings.TrimSpace(tail[k+3:])
+	} else {
+		ret = strings.TrimSpace(tail)
+	}
+	ok = true
+	return
 }
 
 func ParseContractFile(path, pkg string) (*ContractFile, error) {
@@ -193,17 +254,17 @@ func ParseContractFile(path, pkg string) (*ContractFile, error) {
 			cur = nil
 		case "spec":
 			// spec name(params) ret [= body]
-			m := regexp.MustCompile(`^(rec\s+)?([A-Za-z_][A-Za-z0-9_]*)\(([^)]*)\)\s*([^=]*?)\s*(?:=\s*(.*))?$`).FindStringSubmatch(rest)
-			if m == nil {
+			rec, sname, sparams, sret, sbody, ok := parseSpecDecl(rest)
+			if !ok {
 				return nil, fail(i, "bad spec declaration")
 			}
-			ps, err := parseSpecParams(m[3])
+			ps, err := parseSpecParams(sparams)
 			if err != nil {
 				return nil, fail(i, "%v", err)
 			}
-			sf := &SpecFn{Pkg: pkg, Name: m[2], Params: ps, Ret: strings.TrimSpace(m[4]), Src: rest, Rec: m[1] != ""}
-			if m[5] != "" {
-				e, err := ParseExpr(m[5])
+			sf := &SpecFn{Pkg: pkg, Name: sname, Params: ps, Ret: sret, Src: rest, Rec: rec}
+			if sbody != "" {
+				e, err := ParseExpr(sbody)
 				if err != nil {
 					return nil, fail(i, "%v", err)
 				}
